@@ -343,6 +343,14 @@ pub fn extra_pool() -> Vec<File> {
             }
         }
     }
+    // when blocks whose condition is an `or` line with an alternative that cannot be evaluated (undefined variable, undefined
+    // rule): an evaluation error in every order on the pinned tree; if a tree gives statuses, not order-dependent ones
+    for bad in [un(vec![Part::Var("nosuch".into())], UnOp::Exists, false), named("nosuchrule")] {
+        for good in [un(a(), UnOp::Exists, false), lp[1].clone()] {
+            out.push(file1(rule("r0", vec![vec![Clause::When { cond: vec![vec![bad.clone(), good.clone()]], lets: vec![], body: vec![vec![lp[0].clone()]] }]])));
+            out.push(file1(rule("r0", vec![vec![Clause::When { cond: vec![vec![good.clone()], vec![good.clone(), bad.clone()]], lets: vec![], body: vec![vec![lp[0].clone()]] }], vec![lp[1].clone()]])));
+        }
+    }
     // rules whose `when` guards hold queries that differ only inside a filter
     {
         let guard = |n: i64| vec![vec![un(vec![key("a"), Part::Filter(vec![vec![bin(vec![key("b")], BinOp::Eq, false, i(n))]])], UnOp::Empty, true)]];
